@@ -241,7 +241,7 @@ fn out_of_range_fields(msg: &cp::PathSegment) -> Vec<String> {
             o.push("segment_info.segment_id".to_string());
         }
     }
-    let mut hf = |name: &str, h: &cp::HopField, o: &mut Vec<String>| {
+    let hf = |name: &str, h: &cp::HopField, o: &mut Vec<String>| {
         if h.ingress > u16::MAX as u64 {
             o.push(format!("{name}.ingress"));
         }
